@@ -145,6 +145,9 @@ META = dict(
                "pvm.mon.invariants, the library's angular distances",
 )
 
+META["rule"] += (
+    " " + 'Added after the second round of seeded changes: read-only queries (distance-weighted measures, similarity, degree) are interleaved with the setters of a history; every 24th base case has N in {31,32,33,63,64,65} (thorough also 127,128,129,257).')
+
 G = 64.0
 GUARD = 1e-4
 
